@@ -427,6 +427,8 @@ fn stack_op(op: &str, n: usize, dotted: bool) -> usize {
         "to_value" => { let xs: Vec<u64> = (0..n as u64).collect(); let v = serde_lexpr::to_value(&xs).unwrap(); let r = v.is_cons() as usize; std::mem::forget(v); r }
         #[cfg(feature = "fast-float")]
         "from_value" => { let v = long_list(n, false); let xs: Vec<u64> = serde_lexpr::from_value(&v).unwrap(); std::mem::forget(v); xs.len() }
+        #[cfg(feature = "fast-float")]
+        "from_value_ignored" => serdecheck::ignored_long(n),
         _ => panic!("unknown op"),
     }
 }
